@@ -217,6 +217,13 @@ func (jenny RawTypes) formatScalars(pkg string, scalars map[string]ast.ScalarTyp
 
 func (jenny RawTypes) formatReference(pkg string, identifier string, object ast.Object) ([]byte, error) {
 	ref := object.Type.AsRef()
+
+	// an alias is written as a class that extends what it refers to: that is only possible for
+	// a class that can be extended (an enum is final; scalars, lists and maps have no class at all)
+	if resolved := jenny.typeFormatter.context.ResolveRefs(object.Type); !resolved.IsRef() && !resolved.IsAnyOf(ast.KindStruct, ast.KindIntersection) {
+		return nil, fmt.Errorf("%s.%s: an alias of %s.%s (%s) can not be expressed in Java", pkg, object.Name, ref.ReferredPkg, ref.ReferredType, resolved.Kind)
+	}
+
 	reference := fmt.Sprintf("%s.%s", jenny.config.formatPackage(formatPackageName(ref.ReferredPkg)), formatObjectName(ref.ReferredType))
 
 	return jenny.getTemplate().RenderAsBytes("types/class.tmpl", ClassTemplate{
